@@ -204,7 +204,7 @@ def _lib_func(frames, variant_root=None, skip_generic=False):
             continue
         if skip_generic and fn in GENERIC_ALLOC:
             continue
-        if "verif-build" in path and any(d in path for d in LIBDIRS):
+        if ("verif-build" in path or SCRATCH in path) and any(d in path for d in LIBDIRS):
             return fn
         if not path.startswith("/") and not path.startswith("(") and (".c:" in path or ".h:" in path):
             return fn
